@@ -575,7 +575,68 @@ impl Prop for C14 {
         }
         if idx % 4 != 3 {
             // graphs built through the public API
-            let graph = build_graph(rng, &ti);
+            let mut graph = build_graph(rng, &ti);
+            // print, change, print again: the second output must describe the changed graph
+            if rng.chance(1, 2) && graph.node_count() > 0 {
+                let first_ok = {
+                    let case = || json!({"kind": "api-built graph (before a later change)", "pretty": crate::util::trunc(&graph.pretty_print().to_string(), 1200)});
+                    check_graph(&graph, &ti, out, &case).is_some()
+                };
+                if !first_ok {
+                    return;
+                }
+                let refs: Vec<GraphNodeRef> = graph.iter_nodes().collect();
+                for k in 0..rng.range(1, 4) {
+                    let r = refs[rng.below(refs.len())];
+                    let v = gen_val(rng, &mut graph, &refs, &ti, 1);
+                    let name = format!("late_{}_{}", k, *rng.pick(ATTRS));
+                    let _ = graph[r].attributes.add(Identifier::from(name.as_str()), v);
+                    let sinks: Vec<GraphNodeRef> = graph[r].iter_edges().map(|(s, _)| s).collect();
+                    if let Some(sk) = sinks.first() {
+                        let v2 = gen_val(rng, &mut graph, &refs, &ti, 1);
+                        if let Some(e) = graph[r].get_edge_mut(*sk) {
+                            let _ = e.attributes.add(Identifier::from(format!("late_edge_{}", k).as_str()), v2);
+                        }
+                    }
+                }
+                out.feat("printed_changed_printed_again");
+            }
+            // display_json into a file that already holds something longer
+            if rng.chance(1, 6) {
+                let dir = std::env::temp_dir().join(format!("tsgmon_c14_{}", std::process::id()));
+                let _ = std::fs::create_dir_all(&dir);
+                let path = dir.join("graph.json");
+                let _ = std::fs::write(&path, "x".repeat(200_000));
+                let r = catch(|| graph.display_json(Some(&path)));
+                out.eval();
+                let content = std::fs::read_to_string(&path).unwrap_or_default();
+                let _ = std::fs::remove_file(&path);
+                let case = json!({"kind": "display_json into an existing, longer file", "pretty": crate::util::trunc(&graph.pretty_print().to_string(), 800)});
+                match r {
+                    Err(p) => {
+                        out.violation("C14:display_json-panic", &format!("{}: {}", p.location, p.message), case);
+                        return;
+                    }
+                    Ok(Err(e)) => {
+                        out.inconclusive(&format!("harness: cannot write temporary file: {}", e));
+                    }
+                    Ok(Ok(())) => {
+                        let parsed: Result<J, _> = serde_json::from_str(&content);
+                        let direct = serde_json::to_value(&graph).ok();
+                        match parsed {
+                            Ok(j) if Some(&j) == direct.as_ref() => out.feat("display_json_over_existing_file"),
+                            Ok(_) => {
+                                out.violation("C14:display_json-file-differs", "the file written by display_json decodes to something else than the graph", case);
+                                return;
+                            }
+                            Err(e) => {
+                                out.violation("C14:display_json-file-invalid", &format!("the file written by display_json over an existing file is not valid JSON: {}", e), case);
+                                return;
+                            }
+                        }
+                    }
+                }
+            }
             let case = || json!({"kind": "api-built graph", "pretty": crate::util::trunc(&graph.pretty_print().to_string(), 1200), "source": crate::util::trunc(&source, 200)});
             if let Some(g) = check_graph(&graph, &ti, out, &case) {
                 out.feat("api_graph");
